@@ -67,7 +67,7 @@ func runC11(c *vkit.Ctx, plain, trim *Program, foreign []string, absDir string, 
 	// clean slate: remove every snapshot-looking thing from earlier cases
 	for _, pk := range p.Shape.Pkgs {
 		d := p.pkgSrcDir(pk.Dir)
-		for _, n := range []string{"__snapshots__", "snaps_rel", "snaps_nested"} {
+		for _, n := range []string{"__snapshots__", "snaps_rel", "snaps_nested", "coverage 100%", "r%d"} {
 			os.RemoveAll(filepath.Join(d, n))
 		}
 	}
@@ -106,7 +106,7 @@ func runC11(c *vkit.Ctx, plain, trim *Program, foreign []string, absDir string, 
 	}
 	scn := &Scenario{Nodes: map[string]*Node{}, Roots: roots, NoClean: true}
 	nontrivial := pkg != ""
-	dirs := []string{"", "", "snaps_rel", "snaps_nested/a/b", absDir}
+	dirs := []string{"", "", "snaps_rel", "snaps_nested/a/b", absDir, "coverage 100%", "r%d/%s", filepath.Join(absDir, "50%off")}
 	subs := []string{"b", "c d", "x1", "b#01", "ü", "100%", "x/y", "Sub10", "v1.2", "input.json", "ratio=0.5"}
 	nt := 1 + r.IntN(3)
 	if nt > len(tops) {
